@@ -8,7 +8,10 @@ Families:
   temprange  anneal_temperature_range on all accepted model types x flip-probability pairs (incl. 0 and inadmissible);
              the Lean model yields the rational (max dE, min dE) and the case split, the harness recomputes
              -dE/log(p) with math.log and compares within 1e-12 relative (the only tolerance, forced by log)
-  stale      fixed histories whose terms cancelled (candidate defect D6)
+  stale      fixed histories whose terms cancelled, leaving the cached `_variables` stale: regression inputs of defect D6
+             (repaired in /repo: the function reads the labels of the current keys); they must give (0, 0) / T0>=Tf>=0.
+             Should the ValueError come back the oracle reports it under the signature
+             C15:D6-temperature-range-stale-variables
 Direct oracle (independent of the Lean model): truth tables of the object actually passed (n <= 10).
 """
 import itertools, json, math
